@@ -17,6 +17,20 @@ P = "C19"
 EN = "inferno/neural/functional/encoding.py"
 
 
+def _record_bernoulli(c):
+    """wrap the torch.bernoulli model so that the generator each draw is given is recorded"""
+    tn = c.interp.torch_ns._table
+    orig = tn["bernoulli"]
+    gens = []
+
+    def rec(p, generator=None):
+        gens.append(generator)
+        return orig(p)
+
+    tn["bernoulli"] = rec
+    return gens, (lambda: tn.__setitem__("bernoulli", orig))
+
+
 @contract(P, "homogenous_poisson_bernoulli_approx", [(EN, "homogenous_poisson_bernoulli_approx")])
 def bernoulli(c):
     x = c.pw("intensity_hz")
@@ -24,9 +38,14 @@ def bernoulli(c):
     dt = c.real("dt")
     t = c.int("t")
     c.require(x.f >= 0, steps >= 1, dt > 0, 0 <= t, t < steps)
-    out = c.outcome(c.function(EN, "homogenous_poisson_bernoulli_approx"), x, steps, dt)
+    gens, undo = _record_bernoulli(c)
+    try:
+        out = c.outcome(c.function(EN, "homogenous_poisson_bernoulli_approx"), x, steps, dt, generator="<the generator>")
+    finally:
+        undo()
     c.expect_return(out)
     r = out.value
+    c.ensure("every_draw_uses_the_given_generator", len(gens) >= 1 and all(g == "<the generator>" for g in gens))
     c.ensure("boolean", r.dtype == "bool")
     c.ensure("time_first_with_steps_rows", z3.And(r.tlen is not None and r.taxis == "first", num(r.tlen) == steps.z))
     c.ensure("silent_at_zero_intensity", z3.Implies(x.f == 0, z3.Not(r.at(t))))
@@ -38,8 +57,13 @@ def bernoulli_inhom(c):
     x = c.pw("intensity_hz")
     dt = c.real("dt")
     c.require(x.f >= 0, dt > 0)
-    out = c.outcome(c.function(EN, "inhomogeneous_poisson_bernoulli_approx"), x, dt)
+    gens, undo = _record_bernoulli(c)
+    try:
+        out = c.outcome(c.function(EN, "inhomogeneous_poisson_bernoulli_approx"), x, dt, generator="<the generator>")
+    finally:
+        undo()
     c.expect_return(out)
+    c.ensure("every_draw_uses_the_given_generator", len(gens) >= 1 and all(g == "<the generator>" for g in gens))
     r = out.value
     c.ensure("boolean", r.dtype == "bool")
     c.ensure("silent_at_zero_intensity", z3.Implies(x.f == 0, z3.Not(r.f)))
@@ -69,6 +93,7 @@ def refractory_increments(c):
     box = {}
 
     def exponential_(it, self_t, lambd=1.0, generator=None):
+        box["generator"] = generator
         box["nbins"] = self_t.tlen
         return T(lambda t: XI(t), "float", self_t.tlen, "first", self_t.eshape)
 
@@ -80,7 +105,7 @@ def refractory_increments(c):
     T.cumsum = lambda self, dim=0: cumsum(None, self, dim)
     try:
         try:
-            c.call(c.function(EN, "homogeneous_poisson_exp_interval"), f_hz, steps, dt, refrac=refrac, compensate=comp)
+            c.call(c.function(EN, "homogeneous_poisson_exp_interval"), f_hz, steps, dt, refrac=refrac, compensate=comp, generator="<the generator>")
         except _Stop:
             pass
     finally:
@@ -88,6 +113,7 @@ def refractory_increments(c):
         T.cumsum = lambda self, dim=0: (_ for _ in ()).throw(__import__("pyvc.sym", fromlist=["Unsupported"]).Unsupported("cumsum"))
     ok = "inc" in box
     c.ensure("reaches_cumulative_sum", ok)
+    c.ensure("the_draw_uses_the_given_generator", box.get("generator") == "<the generator>")
     if not ok:
         return
     rho = (refrac.z if refrac is not None else dt.z) / dt.z
@@ -131,9 +157,14 @@ def bernoulli_online(c):
     dt = c.real("dt")
     steps = c.choice("steps", [1, 2, 3])
     c.require(x.f >= 0, dt > 0)
-    out = c.outcome(c.function(EN, "homogenous_poisson_bernoulli_approx_online"), x, steps, dt)
+    gens, undo = _record_bernoulli(c)
+    try:
+        out = c.outcome(c.function(EN, "homogenous_poisson_bernoulli_approx_online"), x, steps, dt, generator="<the generator>")
+    finally:
+        undo()
     c.expect_return(out)
     slices = list(out.value)
+    c.ensure("every_draw_uses_the_given_generator", len(gens) == steps and all(g == "<the generator>" for g in gens))
     c.ensure("yields_exactly_steps_slices", len(slices) == steps)
     c.ensure("every_slice_boolean_with_the_input_layout", all(sl.dtype == "bool" and sl.tlen is None for sl in slices))
     c.ensure("silent_at_zero_intensity", z3.Implies(x.f == 0, z3.And(*[z3.Not(sl.f) for sl in slices])))
@@ -155,11 +186,15 @@ def _with_draws(c, kind):
         c.require(d.f >= 0)
         return d
 
+    gens = []
+
     def exponential_(self_t, lambd=1.0, generator=None):
+        gens.append(generator)
         d = fresh("exp")
         return T(d.f, "float", None, None, self_t.eshape)
 
     def poisson(rate, generator=None):
+        gens.append(generator)
         d = fresh("poisson", "int")
         c.require(z3.Implies(tz.coerce(rate.f, "float") == 0, d.f == 0))
         r = T(tz.coerce(d.f, "float"), "float", None, None, rate.eshape)
@@ -180,6 +215,7 @@ def _with_draws(c, kind):
             else:
                 tn[k_] = v
 
+    undo.generators = gens
     return undo
 
 
@@ -194,10 +230,11 @@ def poisson_online(c):
     c.require(x.f >= 0, dt > 0)
     undo = _with_draws(c, "poisson")
     try:
-        out = c.outcome(c.function(EN, "poisson_interval_online"), x, steps, dt)
+        out = c.outcome(c.function(EN, "poisson_interval_online"), x, steps, dt, generator="<the generator>")
     finally:
         undo()
     c.expect_return(out)
+    c.ensure("every_draw_uses_the_given_generator", len(undo.generators) == steps + 1 and all(g == "<the generator>" for g in undo.generators))
     slices = list(out.value)
     c.ensure("yields_exactly_steps_slices", len(slices) == steps)
     c.ensure("every_slice_boolean", all(sl.dtype == "bool" and sl.tlen is None for sl in slices))
@@ -223,10 +260,11 @@ def refractory_online(c):
         c.require(f_hz.f * (refrac.z if refrac is not None else dt.z) < 1000)  # the encoder module's own validity test
     undo = _with_draws(c, "exp")
     try:
-        out = c.outcome(c.function(EN, "homogeneous_poisson_exp_interval_online"), f_hz, steps, dt, refrac=refrac, compensate=comp)
+        out = c.outcome(c.function(EN, "homogeneous_poisson_exp_interval_online"), f_hz, steps, dt, refrac=refrac, compensate=comp, generator="<the generator>")
     finally:
         undo()
     c.expect_return(out)
+    c.ensure("every_draw_uses_the_given_generator", len(undo.generators) == steps + 1 and all(g == "<the generator>" for g in undo.generators))
     slices = list(out.value)
     c.ensure("yields_exactly_steps_slices", len(slices) == steps)
     c.ensure("every_slice_boolean", all(sl.dtype == "bool" and sl.tlen is None for sl in slices))
@@ -299,6 +337,7 @@ _encoder("HomogeneousPoissonApproxEncoder", EP, "homogenous_poisson_bernoulli_ap
 _encoder("PoissonIntervalEncoder", ES, "poisson_interval", "poisson_interval_online", False)
 
 MUTANTS = [
+    dict(file=EN, func="homogeneous_poisson_exp_interval_online", old="                torch.empty_like(intervals[spikes]).exponential_(\n                    1.0, generator=generator\n                )", new="                torch.empty_like(intervals[spikes]).exponential_(1.0)", contracts=["homogeneous_poisson_exp_interval_online[steps<=3]"], name="seed C19d: resampled intervals drawn from the global RNG instead of the given generator"),
     dict(file=EN, func="poisson_interval_online", old="            spikes = torch.logical_and(intervals < 1, mask)", new="            spikes = intervals < 1", contracts=["poisson_interval_online[steps<=3]"], name="seed C19b: online Poisson-interval encoder fires at zero intensity"),
     dict(file=EN, func="homogeneous_poisson_exp_interval_online", old="                * inputs[spikes]\n                + refrac\n            )\n", new="                * inputs[spikes]\n            )\n", contracts=["homogeneous_poisson_exp_interval_online[steps<=3]"], name="online refractory encoder: resampled interval without the refractory offset"),
     dict(file="inferno/neural/encoders/poisson.py", func="HomogeneousPoissonEncoder.forward", old="                refrac=self.refrac,\n                compensate=self.compensated,\n                generator=self.generator,\n            )\n        else:", new="                refrac=None,\n                compensate=self.compensated,\n                generator=self.generator,\n            )\n        else:", contracts=["HomogeneousPoissonEncoder.forward"], name="online encoding ignores the configured refractory period"),
